@@ -265,6 +265,14 @@ pub fn run(tier: Tier) -> RunOutcome {
         },
         _ => ClockProfile::fine(seed),
     };
+    probe(match kind {
+        0 => "c04_clock_fine",
+        1 => "c04_clock_frozen",
+        2 => "c04_clock_coarse_bursty",
+        3 => "c04_clock_one_jump_1000s",
+        4 => "c04_clock_stall_in_print_span",
+        _ => "c04_clock_creep_1ms_per_read",
+    });
     let at = choose("at", r_total as u32 + 1) as u64; // read index where things happen
     let mut limit_ns: Option<u64> = None;
     match kind {
